@@ -71,12 +71,107 @@ def rule_bus_deps(ctx, repo, models):
               "bus-off propagation no longer switches off exactly the devices found on the off buses", f.W())
     ok = any(Q.match("self.system.connectivity(info=True)", c) for c in calls_in(f.fn))
     ctx.check(ok, "C12.bus-deps", "ConnMan.act/recheck", "connectivity re-checked after propagation", "no connectivity re-check after switching devices off", f.W())
+    rule_act_dataflow(ctx, repo, f)
     b = F.method(repo, "Bus", "set", BUS)
     ok = Q.has("_check_conn_status(system=self.system, src=src, attr=attr)", b.fn)
     c = F.function(repo, BUS, "_check_conn_status")
     ok = ok and Q.has("system.conn.record()", c.fn) and Q.has("system.PFlow.converged = False", c.fn)
     ctx.check(ok, "C12.bus-deps", "Bus.set", "u changes are recorded and invalidate the power-flow solution",
               "bus status changes are no longer recorded / no longer invalidate PFlow.converged", b.W())
+
+
+def rule_act_dataflow(ctx, repo, f):
+    """Three dataflow obligations behind "switches off exactly the devices attached": (1) the not-found sentinel of find_idx is
+    filtered element-wise before the list reaches Group.set; (2) status changes recorded but not yet acted on are accumulated,
+    not overwritten by the next record(); (3) the group lookup in all-matches mode merges the matches of every model."""
+    fn = f.fn
+    # (1) sentinel filter on the def-use chain  find_idx(..., default=D)  ->  set(idx=...)
+    fcalls = [c for c in calls_in(fn) if isinstance(c.func, ast.Attribute) and c.func.attr == "find_idx"]
+    scalls = [c for c in calls_in(fn) if isinstance(c.func, ast.Attribute) and c.func.attr == "set" and any(k.arg == "idx" for k in c.keywords)]
+    if not fcalls or not scalls:
+        ctx.undecided("C12.bus-deps", "ConnMan.act/sentinel", "find_idx -> set chain not recognised", f.W())
+    else:
+        dflt = next((k.value for c in fcalls for k in c.keywords if k.arg == "default"), None)
+        allow_none = any(k.arg == "allow_none" and isinstance(k.value, ast.Constant) and k.value.value is True for c in fcalls for k in c.keywords)
+        sent = src(dflt) if dflt is not None else "None"
+        idx_arg = next(k.value for k in scalls[0].keywords if k.arg == "idx")
+        # backward slice over names
+        names, work = set(), [x.id for x in ast.walk(idx_arg) if isinstance(x, ast.Name)]
+        stmts = []
+        while work:
+            nm = work.pop()
+            if nm in names:
+                continue
+            names.add(nm)
+            for st in walk_noscope(fn):
+                contrib = None
+                if isinstance(st, ast.Assign) and any(dotted(t) == nm for t in st.targets):
+                    contrib = st.value
+                elif isinstance(st, ast.Expr) and isinstance(st.value, ast.Call) and isinstance(st.value.func, ast.Attribute) and \
+                        st.value.func.attr in ("append", "extend") and dotted(st.value.func.value) == nm:
+                    contrib = st.value
+                if contrib is not None:
+                    stmts.append(st)
+                    work += [x.id for x in ast.walk(contrib) if isinstance(x, ast.Name)]
+        elementwise = False
+        for st in stmts:
+            for c in ast.walk(st):
+                if isinstance(c, (ast.ListComp, ast.GeneratorExp)):
+                    for g_ in c.generators:
+                        for t in g_.ifs:
+                            if sent in src(t) and any(isinstance(x, ast.Name) and x.id in {n_.id for n_ in ast.walk(g_.target) if isinstance(n_, ast.Name)}
+                                                      for x in ast.walk(t)):
+                                elementwise = True
+                if isinstance(c, ast.Call) and dotted(c.func) == "filter":
+                    elementwise = True
+        # loop idiom: `for d in <chain>: if d is None: continue` / `if d is not None: <chain>.append(d)`
+        for l in walk_noscope(fn):
+            if isinstance(l, ast.For) and any(isinstance(x, ast.Name) and x.id in names for x in ast.walk(l.iter)):
+                tv = {x.id for x in ast.walk(l.target) if isinstance(x, ast.Name)}
+                for t in ast.walk(l):
+                    if isinstance(t, ast.If) and sent in src(t.test) and any(isinstance(x, ast.Name) and x.id in tv for x in ast.walk(t.test)):
+                        elementwise = True
+        whole = [src(n) for n in walk_noscope(fn) if isinstance(n, ast.Compare) and any(src(x) == "[%s]" % sent for x in n.comparators)]
+        ok = (not allow_none) or elementwise
+        ctx.check(ok, "C12.bus-deps", "ConnMan.act/sentinel", "the not-found sentinel %s is removed element-wise before Group.set(idx=...)" % sent,
+                  "find_idx(allow_none=True, default=%s) yields %s for every off bus without a match; the chain to `%s` removes it only by the "
+                  "whole-list test %s, which holds for a single off bus only: with two or more off buses %s reaches Group.set (KeyError) " % (
+                      sent, sent, src(scalls[0])[:60], whole or "(none)", sent), f.W(scalls[0]))
+    # (2) pending changes accumulate
+    rec = F.method(repo, "ConnMan", "record", CONN)
+    upd = F.method(repo, "ConnMan", "_update", CONN) if repo.has_method("ConnMan", "_update", CONN) else None
+    fns = [rec.fn] + ([upd.fn] if upd and any(dotted(c.func) == "self._update" for c in calls_in(rec.fn)) else [])
+    writes = []
+    ref_adv = False
+    for g_ in fns:
+        for st in walk_noscope(g_):
+            if isinstance(st, (ast.Assign, ast.AugAssign)):
+                tg = st.targets[0] if isinstance(st, ast.Assign) else st.target
+                t = src(tg)
+                if t.startswith("self.changes['off']") or t.startswith('self.changes["off"]'):
+                    writes.append(st)
+                if t.startswith("self.busu0"):
+                    ref_adv = True
+    if not writes:
+        ctx.undecided("C12.bus-deps", "ConnMan.record/pending", "writer of changes['off'] not recognised", rec.W())
+    else:
+        acc = all(isinstance(w, ast.AugAssign) or "self.changes['off']" in src(w.value) or 'self.changes["off"]' in src(w.value) for w in writes)
+        ok = acc or not ref_adv
+        ctx.check(ok, "C12.bus-deps", "ConnMan.record/pending", "changes recorded before the next act() are accumulated",
+                  "record() overwrites changes['off'] (`%s`) and advances the reference busu0 in the same call: a bus switched off by an "
+                  "earlier set() whose change has not been acted on yet is forgotten, its devices stay in service" % src(writes[0]), rec.W(writes[0]))
+    # (3) all-matches mode merges every model
+    g = F.method(repo, "GroupBase", "find_idx", "andes/models/group.py")
+    coll = [l for l in ast.walk(g.fn) if isinstance(l, ast.For) and isinstance(l.iter, ast.Name) and
+            any(isinstance(c, ast.Call) and isinstance(c.func, ast.Attribute) and c.func.attr in ("append", "extend") for c in ast.walk(l))
+            and any(isinstance(x, ast.Compare) and "default" in src(x) for x in ast.walk(l))]
+    if not coll:
+        ctx.undecided("C12.bus-deps", "GroupBase.find_idx/all-models", "per-model result merge loop not recognised", g.W())
+    for l in coll:
+        ex = [e for e in Q.early_exits(l) if not any("allow_all" in src(c.test) for c in (Q.condition_chain(l, e) or []) if hasattr(c, "test"))]
+        ctx.check(not ex, "C12.bus-deps", "GroupBase.find_idx/all-models", "with allow_all the matches of every model of the group are merged",
+                  "`%s` at line %d keeps the matches of the first model that has any: devices of the group's other models on the same bus "
+                  "are not returned (and not switched off)" % (src(ex[0]) if ex else "", ex[0].lineno if ex else 0), g.W(l))
 
 
 def rule_series_table(ctx, repo, models):
@@ -229,7 +324,7 @@ def rule_recheck(ctx, repo):
 
 
 def run(ctx):
-    ctx.rule("C12.bus-deps", "cross-table exhaustiveness: every IdxParam(model='Bus') of every power-flow model is listed in bus_deps; "
+    ctx.rule("C12.bus-deps", "dataflow (sentinel filter, pending changes, all-model merge) and cross-table exhaustiveness: every IdxParam(model='Bus') of every power-flow model is listed in bus_deps; "
              "listed fields exist; act() switches off exactly the found devices", 20)
     ctx.rule("C12.series", "connectivity() edge table covers every model injecting into >= 2 buses with its own status/addresses; "
              "symmetric adjacency; degree test; results reset", 8)
